@@ -36,6 +36,7 @@ class BoboDeviceManager:
 
         self._last_comms: int = 0
         self._last_attempt: int = 0
+        self._resets: int = 0
 
         self._stash_completed: List[BoboRunSerial] = []
         self._stash_halted: List[BoboRunSerial] = []
@@ -136,6 +137,29 @@ class BoboDeviceManager:
         with self._lock:
             self._last_comms = 0
             self._last_attempt = 0
+            self._resets += 1
+
+    @property
+    def resets(self) -> int:
+        """
+        :return: The number of times that the last communication times have
+            been cleared.
+        """
+        with self._lock:
+            return self._resets
+
+    def contacted(self, now: int, resets: int) -> None:
+        """
+        Records a successful communication with the device, unless the last
+        communication times have been cleared in the meantime.
+
+        :param now: The time of the successful communication.
+        :param resets: The value of `resets` that was read before deciding
+            what to send to the device.
+        """
+        with self._lock:
+            if self._resets == resets:
+                self._last_comms = max(0, now)
 
     def stash(self) -> Tuple[
         List[BoboRunSerial], List[BoboRunSerial], List[BoboRunSerial]
